@@ -124,6 +124,89 @@ type ownCtx struct {
 	ident []bool
 }
 
+// backingClass: ownership of the array behind a slice value (not of what its elements refer to): a slice made here, or
+// grown here from one made here, has a fresh array whatever it holds.
+func (a *ownAnalysis) backingClass(x *ownCtx, v ssa.Value, visiting map[ssa.Value]bool, depth int) own {
+	if depth > 12 || v == nil {
+		return ownShared
+	}
+	if visiting[v] {
+		return ownFresh // loop-carried: decided by the other edges
+	}
+	visiting[v] = true
+	defer delete(visiting, v)
+	switch t := v.(type) {
+	case *ssa.Const, *ssa.MakeSlice:
+		return ownFresh
+	case *ssa.Slice:
+		if _, isArr := t.X.Type().Underlying().(*types.Pointer); isArr {
+			return a.classOf(x, t.X, 0) // a slice of an array variable
+		}
+		return a.backingClass(x, t.X, visiting, depth+1)
+	case *ssa.Phi:
+		c := ownFresh
+		for _, e := range t.Edges {
+			c = worse(c, a.backingClass(x, e, visiting, depth+1))
+		}
+		return c
+	case *ssa.Call:
+		if bi, ok := t.Common().Value.(*ssa.Builtin); ok && bi.Name() == "append" && len(t.Common().Args) > 0 {
+			return a.backingClass(x, t.Common().Args[0], visiting, depth+1)
+		}
+	case *ssa.UnOp:
+		if t.Op == token.MUL {
+			if al, isLocal := t.X.(*ssa.Alloc); isLocal {
+				c := ownFresh
+				vals := storedInto(al)
+				for _, sv := range vals {
+					c = worse(c, a.backingClass(x, sv, visiting, depth+1))
+				}
+				if len(vals) > 0 {
+					return c
+				}
+			}
+		}
+	}
+	return a.classOf(x, v, 0)
+}
+
+// putBackShared: the value is stored into shared memory, or handed to the storing operation of a concurrent container.
+func (a *ownAnalysis) putBackShared(x *ownCtx, v *ssa.Call) bool {
+	for _, rf := range *v.Referrers() {
+		switch t := rf.(type) {
+		case *ssa.Store:
+			if t.Val == ssa.Value(v) {
+				if _, local := t.Addr.(*ssa.Alloc); !local && a.classOf(x, t.Addr, 0) == ownShared {
+					return true
+				}
+			}
+		case *ssa.MapUpdate:
+			if t.Value == ssa.Value(v) && a.classOf(x, t.Map, 0) == ownShared {
+				return true
+			}
+		case ssa.CallInstruction:
+			if cal := core.Callee(t.Common()); cal != nil && cal.Signature.Recv() != nil {
+				switch cal.Name() {
+				case "Store", "LoadOrStore", "Swap":
+					return true
+				}
+			}
+		case *ssa.MakeInterface:
+			for _, r2 := range *t.Referrers() {
+				if ci, ok := r2.(ssa.CallInstruction); ok {
+					if cal := core.Callee(ci.Common()); cal != nil && cal.Signature.Recv() != nil {
+						switch cal.Name() {
+						case "Store", "LoadOrStore", "Swap":
+							return true
+						}
+					}
+				}
+			}
+		}
+	}
+	return false
+}
+
 // isIdent: v is, unchanged, a parameter that carries the goroutine's own key or element.
 func (a *ownAnalysis) isIdent(x *ownCtx, v ssa.Value, depth int) bool {
 	if depth > 6 || v == nil {
@@ -460,10 +543,11 @@ func (a *ownAnalysis) analyze(x *ownCtx, depth int) {
 					if bi.Name() == "delete" || bi.Name() == "copy" {
 						record(in, com.Args[0], bi.Name())
 					}
-					if bi.Name() == "append" && len(com.Args) > 0 && a.classOf(x, com.Args[0], 0) == ownShared {
-						// appending to a slice that others can reach writes into its spare capacity (two appenders
-						// starting from the same slice write the same slot)
-						if k, isK := com.Args[0].(*ssa.Const); !isK || !k.IsNil() {
+					if bi.Name() == "append" && len(com.Args) > 0 && a.backingClass(x, com.Args[0], map[ssa.Value]bool{}, 0) == ownShared {
+						// growing a slice that others can reach and putting the result back where they can reach it is a
+						// read-modify-write of shared state: two appenders starting from the same slice write the same
+						// slot of its spare capacity, and one result replaces the other
+						if call, isCall := in.(*ssa.Call); isCall && a.putBackShared(x, call) {
 							record(in, com.Args[0], "append")
 						}
 					}
